@@ -56,7 +56,8 @@ func runC05(c *runCtx) {
 			}
 		}
 	}
-	seps := []string{" ", "\n", "\n\n", "\r\n", "\t", "  \n  ", " -- c\n", "\n-- x y\n\n", "/* c */", " /* multi\nline\n*/ ", "\n\t", " \n"}
+	seps := []string{" ", "\n", "\n\n", "\r\n", "\t", "  \n  ", " -- c\n", "\n-- x y\n\n", "/* c */", " /* multi\nline\n*/ ", "\n\t", " \n",
+		strings.Repeat("\n", 9), strings.Repeat("\n", 17), strings.Repeat(" \n", 12), strings.Repeat("\r\n", 10), "/* a\n" + strings.Repeat("\n", 11) + "b */\n", strings.Repeat("-- c\n", 10)}
 	for i := 0; i < c.n(3000, 120000); i++ {
 		// build the text, remembering where each lexeme and comment starts and ends
 		type span struct {
